@@ -22,7 +22,15 @@
 #include "alloc.h"
 #include "locks.h"
 #include "dns_env.h"
+#ifdef C35_EVDNS_SRC
+/* formatter-level obligations: the driver's copy of $VERIF_REPO/evdns.c in which the single
+ * declaration `unsigned char buf[1024 * 64];` of evdns_server_request_format_response reads
+ * `unsigned char buf[C35_FMTBUF];` (a 64 KiB symbolic buffer does not fit in memory; the formatter
+ * is parametric in that size; see props/C35.py gen_scaled_source and NOTE). */
+#include C35_EVDNS_SRC
+#else
 #include "evdns.c"
+#endif
 #ifndef C35_N
 #define C35_N 3
 #endif
